@@ -1353,7 +1353,7 @@ def sign_rules(ctx):
     if cc0 is None: return
     cc = local_form(ctx, cc0)
     LS = local_slicer(ctx) if cc is not cc0 else ctx.S
-    sides = {}; idx_of = {}; bound_op = {}
+    sides = {}; idx_of = {}; bound_op = {}; cands = {}; tests = {'+inf': set(), '-inf': set()}
     for bi, st in float_cmp_sites(cc, ('Ne', 'Eq')):
         infs = [o['v'] for o in st['rv']['ops'] if o['k'] == 'const' and 'INFINITY' in o['v']]
         if not infs: continue
@@ -1365,7 +1365,7 @@ def sign_rules(ctx):
         for g in T.guards_from_local(cc, st['dst']['l'], bi):
             emit, skip = (g.true_bb, g.false_bb) if st['rv']['op'] == 'Ne' else (g.false_bb, g.true_bb)
             reg, _ = exclusive_regions(cc, bi, emit, skip)
-            idx_of[key] = idx; bound_op[key] = other[0]
+            tests[key].add(bi)
             # (a) the constant handed to wrap_function: +-bound
             const_sign = None
             wf = [c for c in cc.calls if c.bb in reg and c.item == 'wrap_function']
@@ -1416,7 +1416,13 @@ def sign_rules(ctx):
                 ids.append('m+i' if add and m else ('i' if not add and not m else 'other'))
                 le.append(slice_op(ctx, cc, agg_field_operand(st2, 'equality')).has_const(r'Equality::LessThanOrEqualToZero') if cc is cc0 else LS.slice_operand(cc, agg_field_operand(st2, 'equality')).has_const(r'Equality::LessThanOrEqualToZero'))
                 emitted.append(flows_to_return(cc, st2['dst']['l']))
-            sides[key] = dict(constant=const_sign, negated=sorted(negated), ids=ids, le=le, emitted=emitted, site=cc.site(bi))
+            cands.setdefault(key, []).append((0 if ids else 1, len(reg), dict(constant=const_sign, negated=sorted(negated), ids=ids, le=le, emitted=emitted, site=cc.site(bi)), idx, other[0], bi))
+    # a bound may be compared with its infinity more than once (`if c_u == inf && c_l == -inf { continue }` in front of the two sides): the side is
+    # the innermost guard that has a Constraint built under it
+    main_test = {}
+    for key, cs in cands.items():
+        best = sorted(cs, key=lambda x: (x[0], x[1]))[0]
+        sides[key], idx_of[key], bound_op[key], main_test[key] = best[2], best[3], best[4], best[5]
     want = {'+inf': dict(constant=-1, negated=[], ids=['i'], le=[True], emitted=[True]),
             '-inf': dict(constant=1, negated=['linear.terms', 'quadratic.values'], ids=['m+i'], le=[True], emitted=[True])}
     text = {'+inf': 'upper side (emitted iff c_u != +inf): constant -c_u, coefficients kept, id i',
@@ -1429,6 +1435,7 @@ def sign_rules(ctx):
         site = got.pop('site')
         for k in ('constant', 'negated', 'ids', 'le', 'emitted'):
             ctx.check(got[k] == want[key][k], R + '/%s/%s' % (name, k), 'T-BRANCHFX', cc.name, '%s: %s is %s, expected %s  [%s]' % (name, k, got[k], want[key][k], text[key]), site, table=str(got))
+    every_row_rules(ctx, R, cc, LS, tests, main_test)
     # which bound list feeds which test (LIST_SOURCE_IDIOMS)
     for key, name, want_list in (('+inf', 'upper', 'constr_upper_cs'), ('-inf', 'lower', 'constr_lower_cs')):
         op = bound_op.get(key)
@@ -1476,6 +1483,32 @@ def dense_fill_sites(ctx, ob):
             s0 = ctx.S.slice_operand(ob, c.args[0])
             if any(x.item == 'repeat' and x.args and has(x.args[0], 'default_b0') for x in s0.call_objs): out.append(('repeat', c.bb))
     return out
+
+
+def every_row_rules(ctx, R, cc, LS, tests, main_test):
+    """one <= 0 constraint per finite side of EVERY declared constraint: in the loop over the constraint rows no pass may get back to the
+    loop header, or leave the loop, without having compared the row's c_u with +inf and its c_l with -inf (any of the comparisons of that
+    bound counts, so `if c_u == inf && c_l == -inf { continue }` is fine, `if row_is_empty { continue }` is not); the row iterator is not
+    thinned out (filter / take / skip / step_by ..); the loop is not skipped as a whole."""
+    if '+inf' not in main_test or '-inf' not in main_test: return          # reported as */guard
+    lo_u = innermost_loop(cc, main_test['+inf']); lo_l = innermost_loop(cc, main_test['-inf'])
+    rows = [lo for lo in T.for_loops(cc) if lo_u is not None and lo[1] == lo_u[0]]
+    if lo_u is None or lo_l is None or lo_u[0] != lo_l[0] or not rows:
+        ctx.bad(R + '/every-row/loop', 'T-LOOPMUST', cc.name, 'the two side tests are not in one loop over the constraint rows', cc.site()); return
+    lo = rows[0]; header, some_bb, blocks = lo[1], lo[2], lo[4]
+    exits = {x for bb in blocks for x in cc.succ(bb) if x not in blocks and not cc.blocks[x]['cleanup']} - {lo[3]}
+    # exits that only panic (`terms[i]` out of range, `unwrap`) do not drop rows silently
+    good_ends = cc.strict_ok_exits() if cc.err_exits() else set(cc.return_blocks())
+    exits = {x for x in exits if cc.reach([x]) & good_ends}
+    for key, name in (('+inf', 'upper'), ('-inf', 'lower')):
+        ok = T.must_pass(cc, some_bb, {header} | exits, tests[key] & blocks)
+        ctx.check(ok, R + '/every-row/' + name, 'T-LOOPMUST', cc.name,
+                  'a constraint row can be passed over without its %s bound being compared with %s (a `continue` / `break` / `return` before the side test drops the row)' % (name, key), cc.site(main_test[key]))
+    si = LS.slice_operand(cc, lo[0].args[0])
+    restr = sorted({x.item for x in si.call_objs if x.item in RESTRICTING and 'Iterator' in (x.trait or '')})
+    whole = T.must_pass(cc, 0, set(cc.return_blocks()), {header})
+    ctx.check(not restr and whole and not exits, R + '/every-row/all-rows', 'T-LOOPMUST', cc.name,
+              'the loop over the constraint rows %s' % ('is restricted by %s' % restr if restr else ('can be skipped as a whole' if not whole else 'can be left before the rows are exhausted (`break` / `return`)')), cc.site(lo[0].bb))
 
 
 def wrap_rules(ctx):
@@ -1701,4 +1734,4 @@ def enum_rows(ctx, b, ty, pick):
 def check(ctx):
     codes_rules(ctx); section_rules(ctx); errors_rules(ctx); convert_rules(ctx)
     ctx.floor('C19.codes', 15); ctx.floor('C19.sections', 39); ctx.floor('C19.convert.cover', 19); ctx.floor('C19.infinity', 3)
-    ctx.floor('C19.convert.half', 4); ctx.floor('C19.convert.sign', 12); ctx.floor('C19.convert.b0', 8); ctx.floor('C19.convert.wrap', 2); ctx.floor('C19.convert.vars', 4); ctx.floor('C19.vartypes', 3)
+    ctx.floor('C19.convert.half', 4); ctx.floor('C19.convert.sign', 15); ctx.floor('C19.convert.b0', 8); ctx.floor('C19.convert.wrap', 2); ctx.floor('C19.convert.vars', 4); ctx.floor('C19.vartypes', 3)
